@@ -245,6 +245,9 @@ func solvePhase(obls []*Obligation, dir string, timeout int, withAxioms bool) fl
 			to := timeout
 			if j.o.Cover && to > 3 {
 				to = 3 // vacuity guards get a short budget
+				if timeout > 15 {
+					to = timeout / 3 // escalation run
+				}
 			}
 			r := Solve(dir, j.fname, j.script, to, nil)
 			j.o.Result = r
